@@ -8,15 +8,24 @@
  * usage: c14_bounce <replen> <rcplen> <nrandom> <seed> <shard> <nshards>
  *        c14_bounce -            cases "<kind> <blobhex>" on stdin (kind = P | I | C | D)
  * A case is one blob: fields separated by NUL bytes (all fields are C strings in the real program).
- *   P: vdomsfile recip report [wmode [localsfile]]
+ *   P: vdomsfile recip report [wmode [localsfile [mode]]]
+ *      mode 'L' (default): addbounce(id,recip,report,1) on recip as given (a local-channel record); 'R': flagstrip 0 (a remote-channel
+ *      record); 'A': recip is an ORIGINAL address: the real rewrite() decides channel and stored form, addbounce gets those
  *   I: flags me bouncefrom bouncehost doublebounceto doublebouncehost virtualdomains locals fault sender mess {recip report}*
+ *      every recip is an ORIGINAL address: the real rewrite() (controls as read by getcontrols()) gives channel and stored form,
+ *      addbounce(id,stored,report,channel == local) is what del_dochan would call
+ *   Q: like I, but the fault field is "<exitcode>,<signal>": only in the binary built with -DC14_REALQQ, which links the REAL
+ *      qmail.c: qmail_open() forks and execs $QMAILQUEUE (= harness/c07_qq.c, the scripted stand-in for qmail-queue that records
+ *      what it was given on descriptor 100, then exits with that code or kills itself with that signal); second call scripted 0,0
  *      flags = subset of "mfhtdvl" (which control files exist; with neither m nor l, control/locals is "localhost",
  *      because getcontrols() refuses to start without me and locals); fault = one of "-abcdefghi"
  *   C: like I (fault ignored): follows message -> bounce -> double bounce -> ... (at most 6 steps)
  *   D: flags recip raw chunk [vdomsfile [localsfile]]   flags[0]='1' job is dying; raw = status byte + text from the spawner
  * output, one line per case (hex fields, "-" = empty):
- *   P <blob> <stripped> <text> <sleeps>
- *   I <id> <blob> <bouncefile> <ret> <q> <F> <T> <body> <left> <log> <ret2> <q2> <F2> <T2> <body2|=> <left2> <log2> <sizes>
+ *   P <blob> <stripped> <text> <sleeps> <flagstrip> <stored>      stripped = stripvdomprepend(stored)
+ *   I <id> <blob> <bouncefile> <ret> <q> <F> <T> <body> <left> <log> <ret2> <q2> <F2> <T2> <body2|=> <left2> <log2> <sizes> <routes>
+ *      routes = per failure "<flagstrip>:<stored hex>", comma separated ("-" if none)
+ *   Q <blob> <bouncefile> <ret> <left> <rec> <msg> <env> <ret2> <left2> <rec2> <msg2> <env2> <routes>     rec = the stand-in ran and recorded
  *      sizes = size of bounce/<id> after each addbounce() call, comma separated ("-" if none): the driver cuts the file
  *      into the texts the real addbounce() calls appended and replays the whole life of the message (arrival, D reports,
  *      appendBounce with these texts, the injection(s) with the real envelope/body, unlink) through the daemon monitor
@@ -189,6 +198,7 @@ void pausedir(char *d) { fprintf(stderr, "c14_bounce: pausedir\n"); abort(); }
 #define MAXT 8
 static hbuf qq_body, qq_from, qq_to[MAXT];
 static int qq_nfrom, qq_nto, qq_accepted, qq_opens;
+#ifndef C14_REALQQ
 int qmail_open(struct qmail *qq) {
   int i;
   if (flt_qq_open_fail) return -1;
@@ -206,6 +216,10 @@ char *qmail_close(struct qmail *qq) {
   if (qq->flagerr || flt_qq_close_fail) return "Zqq read error (#4.3.0)";
   qq_accepted = 1; return "";
 }
+#else
+char auto_qmail[] = "/";               /* replaces auto_qmail.o: the child of the real qmail_open() does chdir(auto_qmail) */
+#define REC_FD 100
+#endif
 
 /* ------------------------------------------------------------------ blobs */
 #define MAXF 40
@@ -245,6 +259,7 @@ static void on_sig(int sg) { crash_report(); signal(sg, SIG_DFL); raise(sg); }
 static hbuf vd_cache, lo_cache; static int vd_valid, maps_init;
 static void set_tables(const unsigned char *p, size_t n, const unsigned char *lp, size_t ln) {
   int r;
+  if (!stralloc_copys(&envnoathost, "envnoathost")) nomem();      /* rewrite() in P mode 'A' */
   vf_put("control/virtualdomains", p, n);
   vf_put("control/locals", lp, ln);
   if (vd_valid && vd_cache.n == n && (n == 0 || !memcmp(vd_cache.p, p, n))
@@ -269,21 +284,34 @@ static void names(unsigned long id) {
   fnmake2_bounce(id); strcpy(fn_bounce, fn2.s);
 }
 
+/* the real rewrite() on an original address: returns flagstrip (1 = local channel) and the stored recipient (malloc'd) */
+static int route(const char *addr, char **stored) {
+  char *tmp = strdup(addr); int r = rewrite(tmp);
+  free(tmp);
+  if (!r) nomem();
+  *stored = strdup(rwline.s + 1);           /* rwline = "T" recipient "\0" */
+  return r == 1;
+}
+
 /* ------------------------------------------------------------------ P */
 static void case_P(const unsigned char *b, size_t n) {
-  char *stripped; vfile *f;
+  char *stripped; vfile *f; char *stored; int flag; char mode;
   cur_set('P', b, n);
   split_blob(b, n);
   vf_reset(); faults_clear(); nsleeps = 0; hbuf_reset(&logb);
   set_tables(fld[0], fln[0], fld[4], fln[4]);
   names(ID0);
+  mode = (fln[5] > 0) ? fstr[5][0] : 'L';
+  if (mode == 'A') flag = route(fstr[1], &stored);
+  else { stored = strdup(fstr[1]); flag = (mode != 'R'); }
   wmode = (fln[3] > 0) ? fstr[3][0] - '0' : 0;
-  stripped = stripvdomprepend(fstr[1]);
+  stripped = stripvdomprepend(stored);
   fputs("P", h_out); hexf(b, n); hexf((unsigned char *)stripped, strlen(stripped));
-  addbounce(ID0, fstr[1], fstr[2]);
+  addbounce(ID0, stored, fstr[2], flag);
   f = vf_get(fn_bounce, 0);
   if (f && f->exists) hexf(f->d.p, f->d.n); else fputs(" 00", h_out);
-  fprintf(h_out, " %d\n", nsleeps);
+  fprintf(h_out, " %d %d", nsleeps, flag); hexf((unsigned char *)stored, strlen(stored)); fputc('\n', h_out);
+  free(stored);
   wmode = 0;
 }
 
@@ -308,6 +336,7 @@ static void out_q(void) {
   if (qq_nto == 0) fputc('-', h_out);
   for (i = 0; i < qq_nto && i < MAXT; i++) { if (i) fputc(',', h_out); if (qq_to[i].n) h_hex(qq_to[i].p, qq_to[i].n); else fputs("00", h_out); }
 }
+static hbuf routes;
 /* one injectbounce experiment on the already parsed blob; returns 1 if a message was queued */
 static int run_inject(const unsigned char *b, size_t n, unsigned long id, int use_fault) {
   int i, r, r2, opens; vfile *f; char fault;
@@ -318,8 +347,16 @@ static int run_inject(const unsigned char *b, size_t n, unsigned long id, int us
   { hbuf t = {0}; hb_add(&t, "F", 1); hb_add(&t, fld[9], fln[9]); hb_add(&t, "", 1); vf_put(fn_info, t.p, t.n); free(t.p); }
   vf_put(fn_mess, fld[10], fln[10]);
   static char sizes[MAXF * 24]; size_t szn = 0; sizes[0] = 0;
+  hbuf_reset(&routes);
   for (i = 11; i + 1 < nfld; i += 2) {
-    addbounce(id, fstr[i], fstr[i + 1]);
+    char *stored; int flag = route(fstr[i], &stored); size_t k, sl = strlen(stored);
+    static const char dg[] = "0123456789abcdef";
+    addbounce(id, stored, fstr[i + 1], flag);
+    if (routes.n) hb_add(&routes, ",", 1);
+    hb_add(&routes, flag ? "1:" : "0:", 2);
+    if (!sl) hb_add(&routes, "-", 1);
+    for (k = 0; k < sl; k++) { hb_add(&routes, &dg[((unsigned char)stored[k]) >> 4], 1); hb_add(&routes, &dg[stored[k] & 15], 1); }
+    free(stored);
     f = vf_get(fn_bounce, 0);
     szn += snprintf(sizes + szn, sizeof sizes - szn, "%s%lu", szn ? "," : "", (unsigned long)((f && f->exists) ? f->d.n : 0));
   }
@@ -363,7 +400,9 @@ static int run_inject(const unsigned char *b, size_t n, unsigned long id, int us
   else hexf(qq_body.p, qq_body.n);
   fprintf(h_out, " %d", vf_exists(fn_bounce));
   hexf(logb.p, logb.n);
-  fprintf(h_out, " %s\n", szn ? sizes : "-");
+  fprintf(h_out, " %s ", szn ? sizes : "-");
+  if (routes.n) fwrite(routes.p, 1, routes.n, h_out); else fputc('-', h_out);
+  fputc('\n', h_out);
   /* leave the first call's message in qq_* for the chain */
   hbuf_reset(&qq_body); hb_add(&qq_body, body1.p, body1.n);
   hbuf_reset(&qq_from); hb_add(&qq_from, f1.p, f1.n);
@@ -414,6 +453,61 @@ static void case_C(const unsigned char *b0, size_t n0) {
   fputc('\n', h_out);
 }
 
+/* ------------------------------------------------------------------ Q: the real qmail.c and a scripted queue program */
+#ifdef C14_REALQQ
+#include <sys/wait.h>
+static void rec_reset(void) { if (ftruncate(REC_FD, 0) == -1 || syscall(SYS_lseek, REC_FD, 0, SEEK_SET) == -1) { perror("c14_bounce: REC_FD"); abort(); } }
+/* the record the stand-in appended: 'R' u32 n0 <message> u32 n1 <envelope> */
+static void rec_out(void) {
+  unsigned char h[5]; uint32_t a = 0, bb = 0; unsigned char *m, *e;
+  if (pread(REC_FD, h, 5, 0) != 5 || h[0] != 'R') { fputs(" 0 - -", h_out); return; }
+  memcpy(&a, h + 1, 4); m = malloc(a + 1);
+  if (pread(REC_FD, m, a, 5) != (ssize_t)a || pread(REC_FD, &bb, 4, 5 + a) != 4) { fputs(" 0 - -", h_out); free(m); return; }
+  e = malloc(bb + 1);
+  if (pread(REC_FD, e, bb, 9 + a) != (ssize_t)bb) { fputs(" 0 - -", h_out); free(m); free(e); return; }
+  fputs(" 1", h_out); hexf(m, a); hexf(e, bb);
+  free(m); free(e);
+}
+static void case_Q(const unsigned char *b, size_t n) {
+  int i, r; vfile *f; char script[64];
+  cur_set('Q', b, n);
+  split_blob(b, n);
+  vf_reset(); faults_clear(); nsleeps = 0;
+  setup_controls();
+  names(ID0);
+  { hbuf t = {0}; hb_add(&t, "F", 1); hb_add(&t, fld[9], fln[9]); hb_add(&t, "", 1); vf_put(fn_info, t.p, t.n); free(t.p); }
+  vf_put(fn_mess, fld[10], fln[10]);
+  hbuf_reset(&routes);
+  for (i = 11; i + 1 < nfld; i += 2) {
+    char *stored; int flag = route(fstr[i], &stored); size_t k, sl = strlen(stored);
+    static const char dg[] = "0123456789abcdef";
+    addbounce(ID0, stored, fstr[i + 1], flag);
+    if (routes.n) hb_add(&routes, ",", 1);
+    hb_add(&routes, flag ? "1:" : "0:", 2);
+    if (!sl) hb_add(&routes, "-", 1);
+    for (k = 0; k < sl; k++) { hb_add(&routes, &dg[((unsigned char)stored[k]) >> 4], 1); hb_add(&routes, &dg[stored[k] & 15], 1); }
+    free(stored);
+  }
+  fputs("Q", h_out); hexf(b, n);
+  f = vf_get(fn_bounce, 0);
+  if (f && f->exists) hexf(f->d.p, f->d.n); else fputs(" -", h_out);
+  snprintf(script, sizeof script, "%.40s,-", fln[8] ? fstr[8] : "0,0");
+  setenv("C07_QQ", script, 1);
+  rec_reset(); hbuf_reset(&logb);
+  r = injectbounce(ID0);
+  fprintf(h_out, " %d %d", r, vf_exists(fn_bounce)); rec_out();
+  setenv("C07_QQ", "0,0,-", 1);
+  rec_reset();
+  r = injectbounce(ID0);
+  fprintf(h_out, " %d %d", r, vf_exists(fn_bounce)); rec_out();
+  fputc(' ', h_out);
+  if (routes.n) fwrite(routes.p, 1, routes.n, h_out); else fputc('-', h_out);
+  fputc('\n', h_out);
+}
+#else
+static void case_Q(const unsigned char *b, size_t n) { (void)b; (void)n; }
+#endif
+
 /* ------------------------------------------------------------------ D */
 static int d_init;
 static void case_D(const unsigned char *b, size_t n) {
@@ -448,6 +542,11 @@ static void case_D(const unsigned char *b, size_t n) {
 }
 
 static void run_case(char kind, const unsigned char *b, size_t n) {
+#ifdef C14_REALQQ
+  if (kind == 'Q') case_Q(b, n);
+  cur_kind = 0;
+  return;
+#endif
   switch (kind) {
     case 'P': case_P(b, n); break;
     case 'I': case_I(b, n); break;
@@ -460,6 +559,7 @@ static void run_case(char kind, const unsigned char *b, size_t n) {
 #define case_I(b, n) (case_I(b, n), cur_kind = 0)
 #define case_C(b, n) (case_C(b, n), cur_kind = 0)
 #define case_D(b, n) (case_D(b, n), cur_kind = 0)
+#define case_Q(b, n) (case_Q(b, n), cur_kind = 0)
 
 /* ------------------------------------------------------------------ generators */
 static const char *P_me[] = { "mx.example.org\n", "host\n", "me.example\nsecond line\n" };
@@ -483,7 +583,8 @@ static const char *P_recip[] = { "alice-info@example.com", "bob-x@sub2.example.c
   "Carol-c@example.org", "alice-", "noat", "pre-u@x.y", "dotorg-u@a.org", "o-u@org", "alice-x@sub.example.com", "alice-\n\n@example.com",
   "b-u@a", "second-@example.com", "secondx@example.com", "@", "alice-a@b@example.com", "catch-u@", "\n",
   "joeuser-joe@EXAMPLE.com", "joeuser-x-joe@example.com", "alice-bob@example.com", "joeuser-@example.com", "-joe@example.com",
-  "alice-x@example.com", "ALICE-X@example.com" };
+  "alice-x@example.com", "ALICE-X@example.com", "x@example.com", "joe@example.com", "info@example.com", "u@sub.example.com",
+  "someone@unlisted.example", "x@sub2.example.com", "u@a.org", "bare", "u@other.org" };
 static const char *P_report[] = { "Sorry, no mailbox here by that name. (#5.1.1)\n",
   "Remote host said: 550 no\n\n<victim@x>:\nforged\n", "", "\n", "\n\n", "no trailing newline", "8bit \351\377\n", "a\n\n\nb\n\n",
   "x\n--- Below this line is a copy of the message.\n\nReturn-Path: <>\n", "\n<x>:\n", "a\n\n", "\n\n\n\n", "/\n/\n", "a\r\n\r\nb\r\n",
@@ -557,6 +658,15 @@ int main(int argc, char **argv) {
   h_init_out();
   signal(SIGABRT, on_sig); signal(SIGSEGV, on_sig); signal(SIGBUS, on_sig); signal(SIGFPE, on_sig);
   fnmake_init();
+#ifdef C14_REALQQ
+  { /* descriptor 100: where the stand-in records what it was given (inherited through fork/exec) */
+    char tn[] = "/tmp/c14rec.XXXXXX"; int tfd = mkstemp(tn);
+    if (tfd == -1 || dup2(tfd, REC_FD) == -1) { perror("c14_bounce: record file"); return 111; }
+    unlink(tn); if (tfd != REC_FD) syscall(SYS_close, tfd);
+    signal(SIGPIPE, SIG_IGN);
+    if (!getenv("QMAILQUEUE")) { fprintf(stderr, "c14_bounce: QMAILQUEUE not set\n"); return 111; }
+  }
+#endif
   if (argc > 1 && !strcmp(argv[1], "-")) {
     size_t cap = 1 << 22; char *line = malloc(cap); unsigned char *b = malloc(cap / 2);
     while (fgets(line, cap, stdin)) {
@@ -574,6 +684,43 @@ int main(int argc, char **argv) {
   uint64_t id = 0;
   unsigned char m[64];
 #define MINE ((int)(id++ % nshards) == shard)
+#ifdef C14_REALQQ
+  /* (Q) the real qmail.c: every way the queue program can end x sender forms; then seeded random */
+  { static const char *scripts[] = { "0,0", "0,9", "0,15", "0,11", "51,0", "53,0", "54,0", "31,0", "81,0", "82,0", "91,0", "120,0", "1,0", "100,0", "0,6", "71,0" };
+    (void)replen; (void)rcplen; (void)m;
+    h_seed(seed * 1000003ull + 29);
+    for (unsigned sc = 0; sc < NEL(scripts); sc++) for (unsigned sd = 0; sd < 6; sd++) {
+      static hbuf keep; unsigned k; size_t off = 0; int fno = 0;
+      gen_I_blob('-', (int[]){ 0, 1, 2, 3, 5, 9 }[sd], sd & 1 ? 127 : 1);
+      /* replace the fault field (index 8) by the script */
+      hbuf_reset(&keep);
+      for (k = 0; k <= blob.n; k++) if (k == blob.n || blob.p[k] == 0) {
+        if (fno) hb_add(&keep, "", 1);
+        if (fno == 8) hb_add(&keep, scripts[sc], strlen(scripts[sc])); else hb_add(&keep, blob.p + off, k - off);
+        off = k + 1; fno++;
+      }
+      if (!MINE) continue;
+      case_Q(keep.p, keep.n);
+    }
+    for (int r = 0; r < nrandom / 40; r++) {
+      static hbuf keep; unsigned k; size_t off = 0; int fno = 0; char sc[32];
+      gen_I_blob('-', -1, h_below(128));
+      if (h_below(3) == 0) snprintf(sc, sizeof sc, "0,%d", (int[]){ 9, 15, 11, 6, 2 }[h_below(5)]);
+      else if (h_below(2)) snprintf(sc, sizeof sc, "0,0");
+      else snprintf(sc, sizeof sc, "%d,0", (int)h_below(130));
+      hbuf_reset(&keep);
+      for (k = 0; k <= blob.n; k++) if (k == blob.n || blob.p[k] == 0) {
+        if (fno) hb_add(&keep, "", 1);
+        if (fno == 8) hb_add(&keep, sc, strlen(sc)); else hb_add(&keep, blob.p + off, k - off);
+        off = k + 1; fno++;
+      }
+      if (!MINE) continue;
+      case_Q(keep.p, keep.n);
+    }
+    fflush(h_out);
+    return 0;
+  }
+#endif
   /* (1) every report over {LF,x,<,>,:,0x80} up to replen; recipient a@b, no virtualdomains */
   { static const unsigned char al[6] = { '\n', 'x', '<', '>', ':', 0x80 };
     for (int len = 0; len <= replen; len++) {
@@ -587,25 +734,27 @@ int main(int argc, char **argv) {
   /* (2) every recipient over {LF,a,b,@,-,.} up to rcplen against a fixed virtualdomains file (domain, wildcard,
    *     catch-all, domain exception, virtual-user, mixed-case entries and an exception entry for one whole address `a-a@b:`),
    *     without and with a locals file */
-  for (int lo = 0; lo < 2; lo++)
+  for (int md = 0; md < 3; md++) for (int lo = 0; lo < 2; lo++)
   { static const unsigned char al[6] = { '\n', 'a', 'b', '@', '-', '.' };
+    static const char *modes[3] = { "L", "R", "A" };   /* local-channel record, remote-channel record, original address through rewrite() */
     static const char vd[] = "b:a\n.b:b\n:ab\na.b:\na@b:b\nB.A:a-b\nb@a:a-b\na-a@b:\n";
     for (int len = 0; len <= rcplen; len++) {
       uint64_t total = 1; for (int i = 0; i < len; i++) total *= 6;
       for (uint64_t k = 0; k < total; k++) {
         if (!MINE) continue;
         uint64_t v = k; for (int i = 0; i < len; i++) { m[i] = al[v % 6]; v /= 6; }
-        blob_start(); blob_adds(vd); blob_add(m, len); blob_adds("r\n"); blob_adds("0"); blob_adds(lo ? "B\na.b\n" : "");
+        blob_start(); blob_adds(vd); blob_add(m, len); blob_adds("r\n"); blob_adds("0"); blob_adds(lo ? "B\na.b\n" : ""); blob_adds(modes[md]);
         case_P(blob.p, blob.n);
       } } }
   /* (3) pools: recipient x report x write behaviour, under two virtualdomains files */
   { static const char *vds[] = { "example.com:alice\n.example.com:bob\nsub.example.com:\nEXAMPLE.org:Carol\nx.y:pre:fix\norg:o\n.org:dotorg\na:b\njoe@example.com:joeuser\nalice-x@example.com:\n",
                                  ":catch\nexample.com:alice\nexample.com:second\n#c:x\nnocolon\nother.org:catch-any \n" };
     static const char *los[] = { "localhost\n", "EXAMPLE.com\nother.org\n" };
-    for (unsigned a = 0; a < 4; a++) for (unsigned r = 0; r < NEL(P_recip); r++) for (unsigned t = 0; t < NEL(P_report); t++) {
+    for (unsigned md = 0; md < 3; md++) for (unsigned a = 0; a < 4; a++) for (unsigned r = 0; r < NEL(P_recip); r++) for (unsigned t = 0; t < NEL(P_report); t++) {
       if (!MINE) continue;
       char wm[2] = { (char)('0' + (r + t) % 6), 0 };
       blob_start(); blob_adds(vds[a & 1]); blob_adds(P_recip[r]); blob_adds(P_report[t]); blob_adds(wm); blob_adds(los[a >> 1]);
+      blob_adds((const char *[]){ "L", "R", "A" }[md]);
       case_P(blob.p, blob.n);
     } }
   h_seed(seed * 1000003ull + 17);           /* same stream in every shard: cases are picked by id */
@@ -669,6 +818,7 @@ int main(int argc, char **argv) {
       char wm[2] = { (char)('0' + h_below(6)), 0 };
       blob_start(); blob_add(v.p, v.n); blob_add(t.p, t.n); blob_add(u.p, u.n); blob_adds(wm);
       gen_locals(&v); blob_add(v.p, v.n);
+      blob_adds((const char *[]){ "L", "R", "A", "A" }[h_below(4)]);
       if (!MINE) continue;
       case_P(blob.p, blob.n);
     } else {
